@@ -311,6 +311,11 @@ def run(ctx: Ctx):
         if not call or [ast.unparse(a) for a in call[0].args] != [ast.unparse(it.ast.target)]:
             ctx.fail("_handle_connections:timer-pass#arg", gh.loc(body), "_check_timers is not called with the iterated connection")
 
+    # a connection waiting for its DWA leaves that state only through a DWA or a close: nothing
+    # else (e.g. a second CER / an unsolicited CEA) may store PEER_READY
+    from .common_node import ready_state_stores
+    ready_state_stores(ctx, "C11-R6")
+
 
 def _fmt(facts) -> str:
     return "; ".join(f"{'' if t else 'not '}({s} {o} {sorted(v) if isinstance(v, frozenset) else v})"
